@@ -16,7 +16,7 @@ import random
 from binascii import unhexlify
 from datetime import timedelta
 
-from . import vnet
+from . import enums, vnet
 from .clock import frozen, host_zone, text, zone_rules
 from .irsets import spec_set
 
@@ -197,15 +197,15 @@ _MODE = {"01": 1, "02": 2, "03": 3, "04": 4, "05": 5}
 
 def _result_fields(op: str, res, a: dict) -> dict:
     if op == "get_state":
-        return {"state": 1 if res.state.value == "01" else 0, "watts": res.power_consumption,
+        return {"state": enums.state(res.state), "watts": res.power_consumption,
                 "amps10": int(round(res.electric_current * 10)), "left": text(res.time_left), "on": text(res.time_on),
                 "auto": text(res.auto_shutdown)}
     if op == "get_breeze_state":
-        return {"state": 1 if res.state.value == "01" else 0, "mode": _MODE[res.mode.value], "target": res.target_temperature,
-                "fan": int(res.fan_level.value), "swing": int(res.swing.value), "temp10": int(round(res.temperature * 10)),
+        return {"state": enums.state(res.state), "mode": enums.mode(res.mode), "target": res.target_temperature,
+                "fan": enums.fan(res.fan_level), "swing": enums.swing(res.swing), "temp10": int(round(res.temperature * 10)),
                 "remote": text(res.remote_id)}
     if op == "get_shutter_state":
-        return {"position": res.position, "direction": list(unhexlify(res.direction.value))}
+        return {"position": res.position, "direction": enums.direction(res.direction)}
     if op == "get_schedules":
         out = _sched_fields(res, a)
         for sch in res.schedules:          # what a caller does with its own result must not leak into later listings
